@@ -164,34 +164,49 @@ def outlineNode (os : Objects) (first : Obj) : Option Dict :=
   | .dict d => some d
   | o => (o.asRef.bind (getObject os)).bind Obj.asDict
 
+abbrev WalkRes := Option (Outcome (List Outline × Named))
+
+/-- `if let Ok(Some(outline)) = self.get_outline(node, named) { outlines.push(outline) }` -/
+def pushOutline (r : Outcome (Option Outline × Named)) (acc : List Outline) (named : Named) : List Outline × Named :=
+  match r with
+  | .ok (some o, nm) => (acc ++ [o], nm)
+  | .ok (none, nm) => (acc, nm)
+  | _ => (acc, named)
+
+/-- `if let Ok(first) = node.get(b"First") { … self.get_outlines(Some(first.clone()), Some(vec![]), named)? … }`;
+`walk` is the recursive call -/
+def firstStep (walk : Dict → List Outline → Named → WalkRes) (os : Objects) (node : Dict)
+    (st : List Outline × Named) : WalkRes :=
+  match node.get K_First with
+  | none => some (.ok st)
+  | some first =>
+    match outlineNode os first with
+    | none => some E
+    | some sub =>
+      match walk sub [] st.2 with
+      | some (.ok (subs, nm)) => some (.ok (if subs.isEmpty then st.1 else st.1 ++ [.sub subs], nm))
+      | other => other
+
+/-- `node = match self.get_dict_in_dict(node, b"Next") { Ok(n) => n, Err(_) => break }`;
+`walk` is the next loop iteration -/
+def nextStep (walk : Dict → List Outline → Named → WalkRes) (os : Objects) (node : Dict) (r : WalkRes) : WalkRes :=
+  match r with
+  | some (.ok (acc2, named2)) =>
+    match getDictInDict os node K_Next with
+    | some next => walk next acc2 named2
+    | none => some (.ok (acc2, named2))
+  | other => other
+
 /-- the body of `get_outlines` after the node has been resolved: the `loop` over `Next` and the
 recursion over `First`, both UNGUARDED in the code; fuel counts loop iterations and nesting. -/
-def walkOutlines (os : Objects) : Nat → Dict → List Outline → Named → Option (Outcome (List Outline × Named))
+def walkOutlines (os : Objects) : Nat → Dict → List Outline → Named → WalkRes
   | 0, _, _, _ => none
   | fuel + 1, node, acc, named =>
     match getOutline os node named with
     | .panic s => some (.panic s)
     | r =>
-      let (acc1, named1) : List Outline × Named := match r with
-        | .ok (some o, nm) => (acc ++ [o], nm)
-        | .ok (none, nm) => (acc, nm)
-        | _ => (acc, named)
-      let afterFirst : Option (Outcome (List Outline × Named)) :=
-        match node.get K_First with
-        | none => some (.ok (acc1, named1))
-        | some first =>
-          match outlineNode os first with
-          | none => some E
-          | some sub =>
-            match walkOutlines os fuel sub [] named1 with
-            | some (.ok (subs, nm)) => some (.ok (if subs.isEmpty then acc1 else acc1 ++ [.sub subs], nm))
-            | other => other
-      match afterFirst with
-      | some (.ok (acc2, named2)) =>
-        match getDictInDict os node K_Next with
-        | some next => walkOutlines os fuel next acc2 named2
-        | none => some (.ok (acc2, named2))
-      | other => other
+      nextStep (walkOutlines os fuel) os node
+        (firstStep (walkOutlines os fuel) os node (pushOutline r acc named))
 
 /-- the destination name tree `get_outlines` loads first -/
 def destTree (os : Objects) (cat : Dict) : Option Dict :=
